@@ -24,7 +24,7 @@ RULE = ("Three cases in four: Hypothesis generates configurations that mix scrip
         "earlier run of a different configuration B (independent, or derived from A: same ids but other volatilities / "
         "correlations / prices / seed, so that state keyed by ids would leak), and (b) in 2 (quick) / 4 (thorough) FRESH "
         "interpreters per case started with different PYTHONHASHSEED values (drawn per case from 1..4000) and differently seeded "
-        "global generators; the settings dict must be deep-equal before and after; a different seed must change the digest. "
+        "global generators, and (c) when the members of every settings object are listed in reverse order (a JSON object is unordered; arrays keep their order); the settings dict must be deep-equal before and after; a different seed must change the digest. "
         "Non-trivial = configuration with >=3 agent classes and >=1 event whose run has >=50 log records.")
 ASSUMPTIONS = ["hash-seed dependence that needs a specific collision pattern may need more hash seeds than were used (stated above)"]
 
@@ -124,16 +124,28 @@ def hash_seeds_for(case, n):
     return [1 + (base * 7 + j * 131) % 4000 for j in range(n)]
 
 
+def reordered(x):
+    """the same JSON value with the members of every object listed in reverse order (arrays keep their order)."""
+    if isinstance(x, dict):
+        return {k: reordered(v) for k, v in reversed(list(x.items()))}
+    if isinstance(x, list):
+        return [reordered(v) for v in x]
+    return x
+
+
 def make_check(n_workers):
     def check_case(case):
         A, B = case["A"], case.get("B") or _UNRELATED
         other = dict(A, seed=(A["seed"] + 1) % (2**31))
         hs = hash_seeds_for(case, n_workers)
+        A_rev = dict(A, config=reordered(A["config"]))
         # every comparison is between FRESH interpreters, so a failure is a function of the case alone:
         #   worker 0 (hash seed 0):        A, then A again, then A with another seed
         #   worker 1 (hash seed h1):       B (a different, possibly id-sharing configuration) first, then A
         #   workers 2.. (hash seeds h2..): A
-        plans = [(0, [A, A, other]), (hs[0], [B, A])] + [(h, [A]) for h in hs[1:]]
+        #   (worker 1 also runs A once more with the members of every settings object in reverse order: a JSON object is an
+        #    unordered collection, so that is the same configuration)
+        plans = [(0, [A, A, other]), (hs[0], [B, A, A_rev])] + [(h, [A]) for h in hs[1:]]
         ans = ask_fresh_workers(plans)
         ref = ans[0][0]
         if "crash" in ref:
@@ -145,6 +157,8 @@ def make_check(n_workers):
                                                       "global generators)")
         if ans[1][1]["digest"] != ref["digest"]:
             raise Violation("C07.earlier_run_or_hash_seed", f"the run differs in a fresh process (PYTHONHASHSEED={hs[0]}) in which another configuration was run first")
+        if ans[1][2]["digest"] != ref["digest"]:
+            raise Violation("C07.member_order_of_settings", "the run differs when the members of the settings objects are listed in another order (same names, same values)")
         for h, a in zip(hs[1:], ans[2:]):
             if a[0]["digest"] != ref["digest"]:
                 raise Violation("C07.hash_seed_or_global_state", f"the run differs in a fresh process started with PYTHONHASHSEED={h} and differently seeded global generators")
